@@ -13,6 +13,7 @@ import (
 	stderrors "errors"
 	"fmt"
 	"math/rand"
+	"regexp"
 	"runtime"
 	"strconv"
 	"strings"
@@ -43,6 +44,8 @@ type Node struct {
 	MaxX     bool
 	MinL     int // -1 = absent
 	MaxL     int
+	MinXF    bool   // `exclusiveMinimum: false` is written out (a false-valued rule must be inert)
+	MaxXF    bool   // `exclusiveMaximum: false` is written out
 	Neg      bool   // bounds from the pool of negative fractions (negBounds)
 	Ex       string // example token of a literal when it is not the default of its kind
 	Add      string // additionalProperties: "", any, object, array, string, integer, float, boolean, null, @tN
@@ -98,15 +101,29 @@ func (g *gen) genNode(depth int, allowRef bool) *Node {
 			}
 		case "s":
 			if r.Intn(2) == 0 {
-				n.MinL = r.Intn(2)
+				n.MinL = r.Intn(4)
 			}
 			if r.Intn(2) == 0 {
-				n.MaxL = 1 + r.Intn(3)
+				n.MaxL = 1 + r.Intn(4)
+				if n.MaxL < n.MinL && r.Intn(4) != 0 {
+					n.MaxL = n.MinL + r.Intn(2)
+				}
+			}
+			// an example whose length lies within the bounds, if there is one
+			k := 1
+			if n.MinL > k {
+				k = n.MinL
+			}
+			if k != 1 {
+				n.Ex = `"` + strings.Repeat("s", k) + `"`
 			}
 		}
 		if (n.Lit == "i" || n.Lit == "f") && r.Intn(3) == 0 {
 			g.negBounds(n)
 		}
+		// one absent exclusive flag in three is written out with the value false
+		n.MinXF = n.Min != "" && !n.MinX && r.Intn(3) == 0
+		n.MaxXF = n.Max != "" && !n.MaxX && r.Intn(3) == 0
 		return n
 	case k <= 10:
 		n := &Node{Kind: "arr"}
@@ -161,6 +178,126 @@ var negDocToks = map[string][]string{
 	"f": {"-1.5", "-1.50", "-15e-1", "-1.4", "-1.40", "-1.6", "-1.45", "-1.55", "-1.49", "-1.51", "-0.25", "-0.250", "-25e-2", "-0.5",
 		"-0.3", "-0.2", "-0.26", "-0.24", "-1249e-2", "-12.49", "-12.5", "-125e-1", "-12.51", "-12.4", "-1.0", "-2.5", "-1", "-2", "-12", "-13", "-0"},
 	"i": {"-1", "-2", "-12", "-13", "-0", "0", "-1e0", "-5"},
+}
+
+// strLen: decoded length in bytes of every string token of the pool, as computed by the Lean model of
+// Bytes.Unquote (driver request `unq <hex>`); filled once by initStrLen before any case is generated. The request
+// to the validator model carries a stand-in token of the same length (`"sss"`), because the model of the length
+// rules counts the characters between the quotes and an S-expression atom cannot hold quotes, blanks or brackets.
+var strLen = map[string]int{}
+var strByLen = map[int][]string{}
+
+func initStrLen() {
+	toks := tokPool["s"]
+	reqs := make([]string, len(toks))
+	for i, t := range toks {
+		reqs[i] = "unq " + vh.Hex([]byte(t))
+	}
+	for i, m := range vh.AskModel(reqs) {
+		n := len(m) / 2
+		strLen[toks[i]] = n
+		strByLen[n] = append(strByLen[n], toks[i])
+	}
+}
+
+func strStandIn(tok string) string {
+	n, ok := strLen[tok]
+	if !ok {
+		n = len(tok) - 2
+		if strings.Trim(tok, `"s`) != "" {
+			panic("generator: string token outside the pool: " + tok)
+		}
+	}
+	return `"` + strings.Repeat("s", n) + `"`
+}
+
+// parseDec: a decimal numeral without exponent as (signed mantissa, number of fractional digits, spelled negative).
+func parseDec(t string) (v int64, scale int, neg bool) {
+	neg = strings.HasPrefix(t, "-")
+	t = strings.TrimPrefix(t, "-")
+	if i := strings.IndexByte(t, '.'); i >= 0 {
+		scale = len(t) - i - 1
+		t = t[:i] + t[i+1:]
+	}
+	v, err := strconv.ParseInt(t, 10, 64)
+	if err != nil {
+		panic("generator: bad decimal " + t)
+	}
+	if neg {
+		v = -v
+	}
+	return v, scale, neg
+}
+
+// spell writes the value v * 10^-scale as a random RFC 8259 numeral: optional minus (also on zero), trailing zeros
+// of the fraction dropped or added, and one time in two an exponent part (e or E, optional + sign, -3..3) with
+// the decimal point of the mantissa moved accordingly: 15 = 15 = 15.0 = 1.5E1 = 1.50e+1 = 0.15E2 = 150e-1 = 15000E-3.
+func (g *gen) spell(v int64, scale int) string {
+	r := g.r
+	neg := v < 0 || (v == 0 && r.Intn(4) == 0)
+	m := v
+	if m < 0 {
+		m = -m
+	}
+	for scale > 0 && m%10 == 0 && r.Intn(2) == 0 {
+		m /= 10
+		scale--
+	}
+	for i := 0; i < 2 && r.Intn(4) == 0 && m < 1e15; i++ {
+		m *= 10
+		scale++
+	}
+	useExp := r.Intn(2) == 0
+	e := 0
+	if useExp {
+		e = r.Intn(7) - 3
+	}
+	s2 := scale + e // fractional digits of the mantissa
+	digits := strconv.FormatInt(m, 10)
+	ip, fp := "0", ""
+	switch {
+	case m == 0:
+		if s2 > 0 {
+			fp = strings.Repeat("0", s2)
+		}
+	case s2 <= 0:
+		ip = digits + strings.Repeat("0", -s2)
+	default:
+		if len(digits) <= s2 {
+			digits = strings.Repeat("0", s2-len(digits)+1) + digits
+		}
+		ip, fp = digits[:len(digits)-s2], digits[len(digits)-s2:]
+	}
+	t := ip
+	if neg {
+		t = "-" + t
+	}
+	if fp != "" {
+		t += "." + fp
+	}
+	if useExp {
+		t += string("eE"[r.Intn(2)])
+		switch {
+		case e < 0:
+			t += "-" + strconv.Itoa(-e)
+		case r.Intn(3) == 0:
+			t += "+" + strconv.Itoa(e)
+		default:
+			t += strconv.Itoa(e)
+		}
+	}
+	return t
+}
+
+// zeroExp: the document holds a numeral whose zero integer part is directly followed by an exponent (0e1, -0E5).
+// The implementation does not recognise those as numbers (known finding K-C10-zeroexp, pinned by the repository's
+// own tests).
+var zeroExp = regexp.MustCompile(`(^|[ \[:,])-?0[eE]`)
+
+// values the random documents spell out (mantissa, fractional digits)
+var spellPool = map[string][][2]int64{
+	"i": {{1, 0}, {15, 0}, {0, 0}, {-1, 0}, {2, 0}, {10, 0}, {100, 0}, {-5, 0}, {7, 0}, {150, 1}, {-12, 0}, {2000, 3}},
+	"f": {{15, 1}, {25, 1}, {-15, 1}, {725, 2}, {1, 1}, {-5, 1}, {999, 1}, {155, 2}, {-1249, 2}, {5, 1}, {15, 2}, {1005, 3}},
 }
 
 func numVal(t string) float64 {
@@ -230,7 +367,15 @@ func exampleTok(n *Node) string {
 var tokPool = map[string][]string{
 	"i": {"1", "0", "-1", "2", "7", "-5", "-0", "1e1", "10", "100", "2e0", "15e-1", "-2", "-12"},
 	"f": {"1.5", "1.0", "2.50", "-0.5", "0.15e1", "7.25", "1.50", "-5.0", "1e-1", "99.9", "-1.5", "-1.4", "-1.6", "-1.45", "-15e-1", "-0.25", "-0.3", "-12.5", "-1249e-2"},
-	"s": {`"s"`, `""`, `"ss"`, `"sss"`, `"ssss"`},
+	// strings: plain ones, and spellings with escapes / multi-byte characters whose decoded length (the bytes of
+	// the unquoted value: what minLength / maxLength count) is smaller than the raw length of the token
+	"s": {`"s"`, `""`, `"ss"`, `"sss"`, `"ssss"`, `"sssss"`,
+		`"\n"`, `"\""`, `"\\"`, `"\/"`, `"\u0041"`, `"\u0000"`, // 1 byte
+		`"a\n"`, `"\t\r"`, `"\u0041\u0062"`, `"é"`, `"\u00e9"`, `"\u00E9"`, `"\b\f"`, // 2 bytes
+		`"a\nb"`, `"€"`, `"\u20ac"`, `"\u0041\/\""`, `"é\n"`, `"s\u00e9"`, // 3 bytes
+		`"😀"`, `"\ud83d\ude00"`, `"\uD83D\uDE00"`, `"éé"`, `"a\u20ac"`, `"\\\"\/\n"`, `"\u0073\u0073ss"`, // 4 bytes
+		`"😀s"`, `"\ud83d\ude00\n"`, `"s\u20acs"`, `"\ud83d"`, // 5, 5, 5 bytes; a lone surrogate = U+FFFD = 3 bytes
+	},
 	"b": {"true", "false"},
 	"n": {"null"},
 }
@@ -251,12 +396,16 @@ func rules(n *Node, optional bool) string {
 			rs = append(rs, "min: "+n.Min)
 			if n.MinX {
 				rs = append(rs, "exclusiveMinimum: true")
+			} else if n.MinXF {
+				rs = append(rs, "exclusiveMinimum: false")
 			}
 		}
 		if n.Max != "" {
 			rs = append(rs, "max: "+n.Max)
 			if n.MaxX {
 				rs = append(rs, "exclusiveMaximum: true")
+			} else if n.MaxXF {
+				rs = append(rs, "exclusiveMaximum: false")
 			}
 		}
 		if n.MinL >= 0 {
@@ -422,6 +571,35 @@ func (g *gen) sample(n *Node, types map[string]*Node, fuel int) *Doc {
 	}
 	switch n.Kind {
 	case "lit":
+		if (n.Lit == "i" || n.Lit == "f") && (n.Min != "" || n.Max != "") && r.Intn(2) == 0 {
+			// a probe exactly on a bound, or one unit of its last digit / a tenth of it below or above, in any spelling
+			b := n.Min
+			if b == "" || (n.Max != "" && r.Intn(2) == 0) {
+				b = n.Max
+			}
+			v, scale, _ := parseDec(b)
+			switch r.Intn(5) {
+			case 0:
+				v--
+			case 1:
+				v++
+			case 2:
+				v, scale = v*10-1, scale+1
+			case 3:
+				v, scale = v*10+1, scale+1
+			}
+			return &Doc{Kind: "l", Lit: n.Lit, Tok: g.spell(v, scale)}
+		}
+		if n.Lit == "s" && (n.MinL >= 0 || n.MaxL >= 0) && r.Intn(2) == 0 {
+			// a string whose decoded length is n-1, n or n+1 for one of the length bounds n, in any spelling
+			b := n.MinL
+			if b < 0 || (n.MaxL >= 0 && r.Intn(2) == 0) {
+				b = n.MaxL
+			}
+			if p := strByLen[b-1+r.Intn(3)]; len(p) > 0 {
+				return &Doc{Kind: "l", Lit: "s", Tok: p[r.Intn(len(p))]}
+			}
+		}
 		if n.Neg && r.Intn(4) != 0 { // a value on / just inside / just outside the negative bounds, in some spelling
 			p := negDocToks[n.Lit]
 			return &Doc{Kind: "l", Lit: n.Lit, Tok: p[r.Intn(len(p))]}
@@ -541,6 +719,9 @@ func (g *gen) docText(d *Doc) string {
 			d.Tok = tokPool[d.Lit][g.r.Intn(len(tokPool[d.Lit]))]
 			if g.r.Intn(3) == 0 {
 				d.Tok = litText[d.Lit]
+			} else if p := spellPool[d.Lit]; p != nil && g.r.Intn(3) == 0 {
+				x := p[g.r.Intn(len(p))]
+				d.Tok = g.spell(x[0], int(x[1]))
 			}
 		}
 		return d.Tok
@@ -562,6 +743,9 @@ func (g *gen) docText(d *Doc) string {
 func docSx(d *Doc) string {
 	switch d.Kind {
 	case "l":
+		if strings.HasPrefix(d.Tok, `"`) {
+			return "(l " + strStandIn(d.Tok) + ")"
+		}
 		return "(l " + d.Tok + ")"
 	case "a":
 		s := "(a"
@@ -644,6 +828,12 @@ func (f *feat) walk(n *Node, types map[string]*Node, open map[string]bool, done 
 	case "lit":
 		if n.Neg {
 			f.rules["negative_fraction_bounds"] = true
+		}
+		if n.MinXF {
+			f.rules["exclusiveMinimum_false"] = true
+		}
+		if n.MaxXF {
+			f.rules["exclusiveMaximum_false"] = true
 		}
 		if n.Min != "" {
 			f.rules["min"] = true
@@ -830,6 +1020,17 @@ func oneTable(seed int64) tableResult {
 			st = append(st, "impl_other")
 		}
 		st = append(st, "doc_root_"+d.Kind)
+		caseClass := class
+		if zeroExp.MatchString(dt) {
+			caseClass = "K-C10-zeroexp"
+			st = append(st, "doc_with_zero_exponent_numeral")
+		}
+		if strings.ContainsAny(dt, "eE") {
+			st = append(st, "doc_with_exponent_numeral")
+		}
+		if strings.ContainsAny(dt, "\\é€😀") {
+			st = append(st, "doc_with_escaped_or_multibyte_string")
+		}
 		res.cases = append(res.cases, oneCase{
 			line:  prefix + " val " + env + " " + rootSx + " " + docSx(d),
 			impl:  v,
@@ -837,14 +1038,15 @@ func oneTable(seed int64) tableResult {
 			// a scalar with min / max / length rules is reachable from the root
 			nontrivial: len(f.rules) > 0,
 			stats:      st,
-			class:      class,
+			class:      caseClass,
 		})
 	}
 	return res
 }
 
 func Run(args []string) {
-	rep := vh.NewReport(command, "random type tables as in sem-addprops (4 named types, root of depth<=3, recursive references, nullable, additionalProperties) whose integer / float literals carry min / max (each with probability 1/2, exclusive flags one time in three, bounds from pools of odd spellings: -0, 0.5, 1.0, 1.00, 1.50, 0.15e1, 15e-1, 1e1) and whose strings carry minLength / maxLength; documents print every scalar with a token of a pool of spellings per kind (1e1, 2e0, 15e-1, -0, 2.50, 0.15e1, 1e-1, strings of length 0..4); JSight text -> real AddType/Check/Validate, same IR with raw tokens -> Lean VA.validateT through Num.scan/Num.cmp; 12 documents per table: 5 sampled from the schema, 5 sampled then mutated, 2 random; tables refused by Check (rule sets the example violates, exponent bounds = lexical error 301, ...) are skipped and counted by error code; nontrivial = a scalar with min/max/length rules is reachable from the root; a difference on a table where a non-nullable reference position whose names all end in a cycle of pure references (@a = @a: no alternative at all) is reachable from the root carries the class K-C09-cycle")
+	rep := vh.NewReport(command, "random type tables as in sem-addprops (4 named types, root of depth<=3, recursive references, nullable, additionalProperties) whose integer / float literals carry min / max (each with probability 1/2, exclusive flags one time in three, bounds from pools of odd spellings: -0, 0.5, 1.0, 1.00, 1.50, 0.15e1, 15e-1, 1e1) and whose strings carry minLength / maxLength; documents print every scalar with a token of a pool of spellings per kind (1e1, 2e0, 15e-1, -0, 2.50, 0.15e1, 1e-1, strings of length 0..4); JSight text -> real AddType/Check/Validate, same IR with raw tokens -> Lean VA.validateT through Num.scan/Num.cmp; 12 documents per table: 5 sampled from the schema, 5 sampled then mutated, 2 random; tables refused by Check (rule sets the example violates, exponent bounds = lexical error 301, ...) are skipped and counted by error code; nontrivial = a scalar with min/max/length rules is reachable from the root; one number node in three takes bounds from a pool of negative fractions sharing the integer part; one absent exclusive flag in three is written out as exclusiveMinimum/exclusiveMaximum: false; half of the sampled numbers sit exactly on a bound or one last-digit unit / one tenth of it below or above, spelled as a random RFC 8259 numeral (optional minus also on zero, trailing zeros, exponent e/E with optional sign -3..3, decimal point moved: 15 = 1.5E1 = 0.15e+2 = 150E-1; zero-integer-part-exponent spellings 0e1 are generated and classed K-C10-zeroexp); string bounds 0..4 with half of the sampled strings at decoded length n-1, n, n+1 from a pool with simple escapes, \\uXXXX incl. surrogate pairs and a lone surrogate, and multi-byte UTF-8 (length = bytes of the unquoted value per the Lean Unquote model; the request carries a stand-in string of that length); a difference on a table where a non-nullable reference position whose names all end in a cycle of pure references (@a = @a: no alternative at all) is reachable from the root carries the class K-C09-cycle")
+	initStrLen()
 	r := vh.NewRand(salt)
 	nTables := vh.Pick(3000, 100000)
 	const batch = 4000
